@@ -36,7 +36,11 @@ EXPLANATION = (
     "named one-character class of base32 characters that a STRING_RE is built from (util.base32's BASE32CHAR*, evaluated "
     "through the helper that computes them) is, as a set, the alphabet characters whose N low bits are zero for one N in "
     "0..4 - with (4), which demands the right N at each group's last position, this pins the classes to the canonical ones "
-    "and names the base32 helper / constant when a class is some other set. "
+    "and names the base32 helper / constant when a class is some other set; (14) the table that the validator asserted "
+    "by base32.a2b (could_be_base32_encoded) indexes with (length mod 8, last byte) - folded through init_s8 / "
+    "add_check_array - is true for the last character of every base32 group of every STRING_RE at the group's length(s), "
+    "so that no string the patterns accept, in particular none that to_string() writes, fails a2b's precondition (an "
+    "AssertionError, which from_string does not turn into UnknownURI). "
     "Undecided: base32 a2b/b2a arithmetic itself (value level), int() of huge digit strings, the free-form MDMF "
     "extension fields (explicitly allowed to be dropped); which kinds from_string refuses behind a 'ro.'/'imm.' prefix or "
     "with deep_immutable=True (flag clearing, the error/kind reported for a constraint failure - property C16), str inputs "
@@ -45,10 +49,11 @@ EXPLANATION = (
     "only certain outcomes are reported; rules 11/12 give ANALYSIS-ERROR when a scenario's outcome is not decided by "
     "the known leading bytes (prefix handling moved into helpers, while/nested loops over a prefix table, regex-based prefix "
     "tests, split/partition/replace), and they examine the listed scenarios only (other junk than white space, other "
-    "transformations than slices, the strip family and removeprefix/removesuffix are not modelled); the table "
-    "util.base32.s8 behind a2b's could_be_base32_encoded precondition (it is built from the same helper as the classes of "
-    "rule 13, but its own construction and indexing are value-level code that is not evaluated).")
-TECHNIQUE = ("static analysis: regex-AST language checks on constant-folded patterns, template/decoder pairing, CFG dominance "
+    "transformations than slices, the strip family and removeprefix/removesuffix are not modelled); the other "
+    "conjunct of a2b's validator (the translate-based alphabet test) and the empty-string guard; a validator that does not "
+    "index a table by (len % 8, last byte) gives ANALYSIS-ERROR in rule 14; entries of that table that are true for more "
+    "than the patterns accept are not reported (the patterns decide first).")
+TECHNIQUE = ("static analysis: regex-AST language checks on constant-folded patterns and helper-computed tables, template/decoder pairing, CFG dominance "
              "in from_string, bounded abstract interpretation of from_string / cap constructors / to_string over the CFG")
 
 URI_MOD = "allmydata.uri"
